@@ -179,6 +179,73 @@ func runC09(c *mon.Ctx) {
 		c.Sample("store", 2, map[string]any{"records": N, "stored_hashes": len(st), "tree_hash": fmt.Sprintf("%x", ref.Root(N))})
 	}
 
+	// ---- a zero-copy HashReader: the library must only read what ReadHashes hands out --------------
+	if c.Batch%4 == 2 {
+		N := c.Scale(300, 2000)
+		recs := genRecords(r, N)
+		var st, shadow []tlog.Hash
+		zr := tlog.HashReaderFunc(func(ix []int64) ([]tlog.Hash, error) {
+			// consecutive runs are served as a sub-slice of the store itself
+			consecutive := len(ix) > 0
+			for i := 1; i < len(ix); i++ {
+				if ix[i] != ix[i-1]+1 {
+					consecutive = false
+				}
+			}
+			if consecutive && ix[0] >= 0 && int(ix[len(ix)-1]) < len(st) {
+				return st[ix[0] : ix[len(ix)-1]+1], nil
+			}
+			out := make([]tlog.Hash, len(ix))
+			for i, x := range ix {
+				if x < 0 || int(x) >= len(st) {
+					return nil, fmt.Errorf("index %d out of store", x)
+				}
+				out[i] = st[x]
+			}
+			return out, nil
+		})
+		for i, rec := range recs {
+			id := fmt.Sprintf("zerocopy:%d", i)
+			var hs []tlog.Hash
+			var err error
+			if c.Guard(id, nil, func() { hs, err = tlog.StoredHashes(int64(i), rec, zr) }) || err != nil {
+				c.Violation("storedhashes-error", id, fmt.Sprint(err))
+				break
+			}
+			c.Eval(1)
+			for j := range shadow {
+				if st[j] != shadow[j] {
+					c.Violation("library-wrote-into-hashes-returned-by-the-reader", id, map[string]any{"record": i, "stored_index": j})
+					break
+				}
+			}
+			st = append(st, hs...)
+			shadow = append(shadow, hs...)
+			if i%16 == 15 || i == N-1 {
+				th, err := tlog.TreeHash(int64(i+1), zr)
+				ref := refmerkle.New(recs[:i+1])
+				if err != nil || rH(th) != ref.Root(i+1) {
+					c.Violation("treehash-not-rfc6962", id, map[string]any{"m": i + 1, "reader": "zero-copy", "err": fmt.Sprint(err)})
+				}
+				if i > 2 {
+					if _, err := tlog.ProveRecord(int64(i+1), int64(i/2), zr); err != nil {
+						c.Violation("proverecord-error", id, err.Error())
+					}
+					if _, err := tlog.ProveTree(int64(i+1), int64(i/2+1), zr); err != nil {
+						c.Violation("provetree-error", id, err.Error())
+					}
+				}
+				for j := range shadow {
+					if st[j] != shadow[j] {
+						c.Violation("library-wrote-into-hashes-returned-by-the-reader", id, map[string]any{"after": "TreeHash/Prove*", "stored_index": j})
+						break
+					}
+				}
+			}
+		}
+		c.Class("zero-copy-reader:store-intact")
+	}
+
 	// ---- leaf hash of records of every length 0..1100 and around larger powers of two -------------
 	if c.Batch%4 == 0 {
 		lens := []int{}
